@@ -42,7 +42,9 @@
 //   - a *value* of abstract type (local, result of an opaque call, parameter
 //     that is compared with nil) is modelled by what the code can observe of
 //     it: `AbsPtr` (true = non-nil) for pointers, interfaces, maps, slices, …,
-//     `Unit` otherwise; `&T{…}` of abstract type is non-nil; an assignment to a
+//     `Unit` otherwise; `&T{…}` of abstract type is non-nil and, in trace mode,
+//     the entry ("new T", ["K=" ++ value, …]) (nested literals flattened to
+//     "K.L=…", values of scalar type rendered, "_" otherwise); an assignment to a
 //     field of an abstract object (`resp.Compress = true`) is an effect and is
 //     appended to the trace as `("set resp.Compress", ["true"])`; values read
 //     from abstract objects are re-read (fresh parameters) after any opaque
@@ -615,12 +617,16 @@ func (c *fctx) expr(e ast.Expr) ex {
 					xs = append(xs, c.expr(v))
 				}
 			}
-			return c.bindN(xs, func(s []string) string {
+			r := c.bindN(xs, func(s []string) string {
 				if len(s) == 0 {
 					return "true"
 				}
 				return "(Function.const _ true (" + strings.Join(s, ", ") + "))"
 			})
+			if c.trace {
+				r.code += "«call:" + c.litEntry(cl) + "»"
+			}
+			return r
 		}
 		a := c.expr(x.X)
 		switch x.Op {
@@ -661,6 +667,27 @@ func (c *fctx) expr(e ast.Expr) ex {
 	}
 	fail("expression %s (%T)", c.show(e), e)
 	return ex{}
+}
+
+// litEntry is the trace entry of `&T{K: v, …}` of abstract type: ("new T",
+// ["K=" ++ value, …]), nested literals flattened to "K.L=…"; values as in traceArg.
+func (c *fctx) litEntry(cl *ast.CompositeLit) string {
+	var args []string
+	var walk func(l *ast.CompositeLit, prefix string)
+	walk = func(l *ast.CompositeLit, prefix string) {
+		for _, el := range l.Elts {
+			kv, ok := el.(*ast.KeyValueExpr)
+			if !ok {
+				args = append(args, c.traceArg(el))
+			} else if in, ok := kv.Value.(*ast.CompositeLit); ok {
+				walk(in, prefix+c.show(kv.Key)+".")
+			} else {
+				args = append(args, fmt.Sprintf("(%q ++ %s)", prefix+c.show(kv.Key)+"=", c.traceArg(kv.Value)))
+			}
+		}
+	}
+	walk(cl, "")
+	return fmt.Sprintf("(%q, [%s])", "new "+c.show(cl.Type), strings.Join(args, ", "))
 }
 
 // opaqueValue turns an expression the subset cannot express (an element of a
